@@ -33,7 +33,65 @@ def deterministic_on(pc, X):
     return True
 
 
+def history_ok(ctx, rs, clt, scope, X, rep):
+    from deeprob.spn.algorithms.structure import marginalize
+    n = len(scope)
+    which = int(rs.randint(4))
+    P0 = np.array(clt.params, copy=True)
+    try:
+        pc1 = clt.to_pc()
+        if which == 0:
+            keep = [int(v) for v in rs.choice(scope, max(1, n // 2), replace=False)]
+            marginalize(pc1, keep, copy=False)
+            what = f'to_pc, marginalize(that circuit, {keep}, copy=False), to_pc'
+        elif which == 1:
+            clt.em_init(np.random.RandomState(int(rs.randint(10 ** 6))))
+            what = 'to_pc, em_init, to_pc'
+        elif which == 2:
+            other = C.make_clt(rs, scope, [int(t) for t in clt.tree])
+            clt.params = np.array(other.params, copy=True)
+            what = 'to_pc, parameters re-assigned, to_pc'
+        else:
+            data = rs.randint(2, size=(20, n)).astype(np.float32)
+            clt.em_step(rs.rand(20).astype(np.float32) + 0.1, data, 0.6)
+            what = 'to_pc, em_step, to_pc'
+        pc2 = clt.to_pc()
+    except Exception as ex:
+        ctx.count('history-did-not-run:' + type(ex).__name__)
+        clt.params = P0
+        return True
+    ctx.count('histories:' + what.split(',')[1].strip().split('(')[0])
+    rep2 = dict(rep, history=what, params_now=np.asarray(clt.params, dtype=np.float64).tolist())
+    ok = True
+    if sorted(int(v) for v in pc2.scope) != sorted(int(v) for v in scope):
+        ctx.violation('c12-history-scope', f'after [{what}] the conversion has scope {sorted(pc2.scope)} instead of {sorted(scope)}', replay=rep2)
+        ok = False
+    else:
+        try:
+            a = np.asarray(log_likelihood(pc2, X)).reshape(-1)
+            b = np.asarray(clt.log_likelihood(X[:, clt.scope])).reshape(-1)
+            d = np.abs(a - b)
+            if np.any(d > 5e-4 + 2e-5 * np.abs(b)):
+                r = int(np.argmax(d))
+                ctx.violation('c12-history-value', f'after [{what}] circuit value {float(a[r])!r} != tree value {float(b[r])!r} on query '
+                                                   f'{[None if np.isnan(t) else float(t) for t in X[r]]}', replay=rep2)
+                ok = False
+        except Exception as ex:
+            ctx.violation('c12-history-raises', f'after [{what}] evaluating the new conversion raised {type(ex).__name__}: {ex}', replay=rep2)
+            ok = False
+    return ok
+
+
 def one_case(ctx, rs, scope, pred, tag):
+    before = len(ctx.violations)
+    ctx._c12_last = None
+    _one_case_core(ctx, rs, scope, pred, tag)
+    if len(ctx.violations) == before and ctx._c12_last is not None and len(scope) >= 2:
+        clt, X, rep = ctx._c12_last
+        history_ok(ctx, rs, clt, scope, X, rep)      # last: it changes the tree object
+
+
+def _one_case_core(ctx, rs, scope, pred, tag):
     clt = C.make_clt(rs, scope, pred)
     n = len(scope)
     ncols = max(scope) + 1
@@ -77,6 +135,9 @@ def one_case(ctx, rs, scope, pred, tag):
     if len(comp) and not deterministic_on(pc, comp):
         ctx.violation('c12-not-deterministic', 'a sum node of the conversion has two non-zero children on a complete row', replay=rep)
         return
+    # ---- histories on the same tree object: converted before, then changed (its circuit marginalised in place, parameters
+    # re-initialised / re-assigned / updated by an EM step), then converted again: the new circuit must be the tree as it is NOW
+    ctx._c12_last = (clt, X, rep)
     # ---- model: canonical structure (exact) and values
     if not ctx.driver_ok:
         return
@@ -117,7 +178,7 @@ def run(ctx):
             ncols = n + int(rs.randint(0, 4))
             scope = [int(v) for v in rs.choice(ncols, n, replace=False)]     # permuted, non-contiguous labels
             one_case(ctx, rs, scope, pred, f'exh{n}')
-            if ctx.n_new() >= 3:
+            if ctx.n_new(with_input_only=True) >= 3:
                 return
     ctx.extra['exhaustive_tree_shapes_up_to'] = nmax_exh
     for j in range(40 if quick else 600):
@@ -127,7 +188,7 @@ def run(ctx):
         ncols = n + int(rs.randint(0, 5))
         scope = [int(v) for v in rs.choice(ncols, n, replace=False)]
         one_case(ctx, rs, scope, [int(t) for t in clt0.tree], 'rand')
-        if ctx.n_new() >= 3:
+        if ctx.n_new(with_input_only=True) >= 3:
             return
 
 
